@@ -236,7 +236,7 @@ def pOracle : P OracleTab := do
 def applyFnOf (n : Nat) : Except String ApplyFn :=
   match n with
   | 0 => pure .copy | 1 => pure .reverse | 2 => pure .constInt | 3 => pure .count
-  | 4 => pure .first | 5 => pure .strs | 6 => pure .ints | 7 => pure .bools
+  | 4 => pure .first | 5 => pure .strs | 6 => pure .ints | 7 => pure .bools | 8 => pure .ident
   | _ => throw "bad apply fn"
 
 def aggFnOf (n : Nat) : Except String AggFn :=
